@@ -262,7 +262,18 @@ class BaseVersion(object):
 
     def __hash__(self):
         # type: () -> int
-        return hash(str(self))
+        # Versions that compare equal must hash equal ("1.0" == "1.00" ==
+        # "0:1.0-0"), so hash a normalised form of the comparison key rather
+        # than the spelling.
+        def norm(part):
+            # type: (Optional[str]) -> Tuple[Tuple[str, int], ...]
+            key = [(s, int(d or "0"))
+                   for (s, d) in re.findall(r"([^0-9]*)([0-9]*)", part or "")]
+            while key and key[-1] == ("", 0):
+                key.pop()
+            return tuple(key)
+        return hash((int(self.epoch or "0"), norm(self.upstream_version),
+                     norm(self.debian_revision)))
 
 
 class AptPkgVersion(BaseVersion):
